@@ -14,7 +14,9 @@ RULE = (
     "pointer text: steps 0..depth+1, offset in {none,+-1,+-2,+-10,+-12}, suffix in {'', '#', five pointers with escapes}, "
     "plus the refused spellings (leading zeros, +0/-0, sign without digits). Offsets are generated only where the token "
     "they adjust is a canonical array index. BIG: 4 bases x 9 offsets of 16-20 digits (sums at, just below and beyond 2**53-1, and far "
-    "below zero) x steps 0/1 x 3 suffixes. state = distinct (base, relative text); non-trivial = reference defines a result"
+    "below zero) x steps 0/1 x 3 suffixes. ESC (escape decoding off throughout): bases over 5 tokens holding backslashes / '%' x steps 0..2 x 4 "
+    "suffixes; 7 suffixes whose last token ends in white space; 10 final tokens that int() accepts but that are not array indices x "
+    "3 offsets (refusal or the token left alone are both accepted, a different token is not). state = distinct (base, relative text); non-trivial = reference defines a result"
 )
 ASSUMPTIONS = [
     "reference model mc/ref/rptr.py rel_parse/rel_apply, self-tested on the draft's examples",
@@ -39,7 +41,7 @@ def bounds(tier, seed):
 
 
 def plan(tier, seed):
-    shards = [("D", 0, None), ("D", 1, None), ("BIG",)]
+    shards = [("D", 0, None), ("D", 1, None), ("BIG",), ("ESC",)]
     for a in range(len(TOKENS)):
         shards.append(("D", 2, a))
         for b in range(len(TOKENS)):
@@ -70,7 +72,75 @@ def rel_texts():
         yield r
 
 
+# tokens that hold a backslash (taken literally: everything is built with escape decoding off), suffixes whose last token
+# ends in white space, and final tokens that look like numbers to int() but are not array indices
+BS_TOKENS = ["C:\\new", "a\\u0041", "dir\\", "a", "%41"]
+TRAIL_SUFFIXES = ["/foo\u3000", "/a ", "/\u3000", "/b\t", "/c\n", "/d\xa0", "/ "]
+NONIDX = ["01", "+1", "1_0", "-0", " 1", "\u0661", "1 ", "00", "1.0", "0x1"]
+
+
+def _esc(acc, record=True, only=None):
+    from jsonpath import JSONPointer, RelativeJSONPointer
+    from jsonpath.exceptions import RelativeJSONPointerError
+
+    def case(kind, base, text, exp_tokens, allow_refusal=False):
+        key = [kind, list(base), text]
+        if only is not None and key != only:
+            return
+        bad = None
+        try:
+            rel = RelativeJSONPointer(text, unicode_escape=False)
+            if str(rel) != text:
+                bad = ("print", text, str(rel))
+            for route, mk in (("parse", lambda: JSONPointer(rptr.encode(base), unicode_escape=False)),
+                              ("from_parts", lambda: JSONPointer.from_parts(list(base), unicode_escape=False))):
+                if bad:
+                    break
+                bp = mk()
+                for how, fn in (("rel.to(base)", lambda: rel.to(bp)), ("base.to(rel)", lambda: bp.to(rel)),
+                                ("base.to(text)", lambda: bp.to(text, unicode_escape=False))):
+                    try:
+                        res = fn()
+                    except RelativeJSONPointerError:
+                        if allow_refusal:
+                            continue
+                        bad = ("refused." + route + "." + how, rptr.encode(exp_tokens), "RelativeJSONPointerError")
+                        break
+                    want = rptr.encode(exp_tokens)
+                    if str(res) != want or [str(t) for t in res.parts] != list(exp_tokens) or not (res == JSONPointer(want, unicode_escape=False)):
+                        bad = ("result." + route + "." + how, want, str(res))
+                        break
+        except Exception as e:  # noqa: BLE001
+            bad = ("exception", rptr.encode(exp_tokens), "%s: %s" % (type(e).__name__, e))
+        if record:
+            acc.case("ESC", (kind, tuple(base), text), outcome=tuple(exp_tokens), nontrivial=True)
+            acc.count("esc." + kind)
+        if bad:
+            acc.violation("ESC", bad[0], {"esc": key}, expected=bad[1], observed=bad[2])
+
+    for a in BS_TOKENS:
+        for b in BS_TOKENS:
+            base = [a, b]
+            for steps in (0, 1, 2):
+                for suf_toks, suf in (([], ""), (["x"], "/x"), (["y\\n", "z"], "/y\\n/z"), (["%2541"], "/%2541")):
+                    case("backslash", base, "%d%s" % (steps, suf), base[:len(base) - steps] + suf_toks)
+    for suf in TRAIL_SUFFIXES:
+        for base in (["x"], ["x", "1"]):
+            for steps in (0, 1):
+                case("trailing-blank", base, "%d%s" % (steps, suf), base[:len(base) - steps] + rptr.parse(suf))
+    for t in NONIDX:
+        for off in ("+1", "-1", "+2"):
+            for suf_toks, suf in (([], ""), (["k"], "/k")):
+                # the statement is silent on an offset applied to a token that is not an array index (the draft says
+                # evaluation fails): refusing is accepted, and so is leaving the token alone - a different token never is
+                case("non-index-offset", ["a", t], "0" + off + suf, ["a", t] + suf_toks, allow_refusal=True)
+                case("non-index-offset", ["a", t, "b"], "1" + off + suf, ["a", t] + suf_toks, allow_refusal=True)
+
+
 def run_shard(shard, acc):
+    if shard[0] == "ESC":
+        _esc(acc)
+        return
     if shard[0] == "BIG":
         for base, text in big_cases():
             _check(base, text, acc)
@@ -189,14 +259,19 @@ def _check(base, text, acc, record=True):
         acc.violation("REL", bad[0], {"base": base, "relative": text}, expected=bad[1], observed=bad[2])
 
 
-REQUIRE = {"exp.ptr": 1000, "exp.key": 100, "exp.refused-syntax": 100, "exp.refused-apply": 100, "skipped": 10}
+REQUIRE = {"esc.backslash": 100, "esc.trailing-blank": 10, "esc.non-index-offset": 10, "exp.ptr": 1000, "exp.key": 100, "exp.refused-syntax": 100, "exp.refused-apply": 100, "skipped": 10}
 
 
 def check_case(sub, case, acc):
+    if sub == "ESC":
+        _esc(acc, record=False, only=case["esc"])
+        return
     _check(case["base"], case["relative"], acc, record=False)
 
 
 def shrink(sub, case):
+    if sub == "ESC":
+        return
     base, rel = case["base"], case["relative"]
     for i in range(len(base)):
         yield {"base": base[:i] + base[i + 1:], "relative": rel}
@@ -208,6 +283,9 @@ def shrink(sub, case):
 
 def signature(sub, case, v):
     import re
+
+    if sub == "ESC":
+        return "C16.ESC.%s.%s" % (case["esc"][0], v["kind"].split(".")[0])
 
     rel = case["relative"]
     shape = re.sub(r"[0-9]{2,}", "NN", rel)
